@@ -5,6 +5,7 @@ mod c12_rpki;
 mod c14_policy;
 mod rib;
 mod wire;
+mod wire_attrs;
 mod vals;
 
 use vcore::*;
@@ -22,7 +23,7 @@ fn plan(property: &str) -> BatchPlan {
 
 fn main() {
     let (r06, r15, r02) = (rib::RibHistories { prop: "C06" }, rib::RibHistories { prop: "C15" }, rib::RibHistories { prop: "C02" });
-    let checks: Vec<&dyn Check> = vec![&c12_rpki::RpkiHistories, &c14_policy::PolicyHistories, &r06, &r15, &r02, &wire::BgpStreams, &wire::RtrStreams, &wire::BfdDatagrams, &wire::CodecFixedPoint];
+    let checks: Vec<&dyn Check> = vec![&c12_rpki::RpkiHistories, &c14_policy::PolicyHistories, &r06, &r15, &r02, &wire::BgpStreams, &wire::RtrStreams, &wire::BfdDatagrams, &wire::CodecFixedPoint, &wire_attrs::AttrTlvDecoders];
     let args: Vec<String> = std::env::args().skip(1).collect();
     std::process::exit(main_with(&checks, &plan, &args));
 }
